@@ -154,6 +154,7 @@ void thread_exit_handoff();                     // from the exiting thread
 void emit_result(int status, const char* cls, const char* site, const char* msg);
 void note_shared_write();
 void yield_hint();
+int64_t fault_short_sleep(int64_t ns);
 
 // memory model (mem.cc)
 void sb_drain(Thread* t);
